@@ -375,7 +375,7 @@ func runWorker(b *builds, prop string, ph phase, seed, from, to uint64, id int, 
 	select {
 	case err := <-done:
 		if err != nil {
-			return nil, fmt.Errorf("worker for runs [%d,%d) failed: %v\n%s", from, to, err, tail(stderr.String(), 4000))
+			return nil, fmt.Errorf("worker for runs [%d,%d) failed: %v\n%s", from, to, err, tail(stderr.String(), 30000))
 		}
 	case <-time.After(limit):
 		cmd.Process.Kill()
@@ -666,6 +666,7 @@ func cmdCheck(prop, tier string, phases []phase) int {
 	os.MkdirAll(replayDir(), 0o755)
 	sort.SliceStable(allFound, func(i, j int) bool { return allFound[i].Viol.Class < allFound[j].Viol.Class })
 	seenClass := map[string]bool{}
+	var unrepro []string
 	exit := 0
 	nviol := 0
 	var lines []string
@@ -709,7 +710,12 @@ func cmdCheck(prop, tier string, phases []phase) int {
 			f.Confirmed = false
 		}
 		if !ok {
-			die("a violation (%s: %s) was observed during the batch but its replay file %s does not reproduce it in a fresh process; treating this as harness trouble, not as a verdict\n%s", f.Viol.Class, f.Viol.Detail, path, lastOut)
+			// observed in the batch, not reproducible from its replay file: never
+			// reported as a violation. If nothing else is found either, the check
+			// ends with exit 2 (harness trouble), see below.
+			unrepro = append(unrepro, fmt.Sprintf("%s: %s (replay file %s)\n%s", f.Viol.Class, f.Viol.Detail, path, tail(lastOut, 600)))
+			os.Remove(path)
+			continue
 		}
 		if kf := matchFinding(findings, f.Viol); kf != nil {
 			lines = append(lines, fmt.Sprintf("KNOWN-FINDING: property=%s %s [class %s, replay %s]", prop, kf.What, f.Viol.Class, path))
@@ -721,6 +727,14 @@ func cmdCheck(prop, tier string, phases []phase) int {
 		lines = append(lines, fmt.Sprintf("VIOLATION property=%s replay=%s", prop, path))
 	}
 
+	if len(unrepro) > 0 {
+		for _, u := range unrepro {
+			fmt.Fprintf(os.Stderr, "xpcheck: note: observed during the batch but not reproducible from its replay file in a fresh process, therefore not reported: %s\n", u)
+		}
+		if len(lines) == 0 {
+			die("violations were observed during the batch but none of them replays in a fresh process; treating this as harness trouble, not as a verdict")
+		}
+	}
 	wall := time.Since(t0).Seconds()
 	writeEvidence(prop, tier, seed, executed, nontriv, total, samples, phaseInfo, wall, nviol, b)
 	for _, l := range lines {
